@@ -46,7 +46,7 @@ ASSUMPTIONS = [
     "CPython 3.12 asyncio FIFO ready queue; one step = one `await asyncio.sleep(0)` of the driver",
     "the 20-line sequential model in this file and the history invariants are the specification",
 ]
-MINIMUMS = {"handoff_while_pending": 100, "cancel_after_handoff": 10, "monitor:model": 1000, "monitor:drain": 1000, "long_backlog_drains": 60, "finished_with_falsy_exception": 200, "bulk_backlogs_drained": 6, "producer_between_loop_runs": 7}
+MINIMUMS = {"handoff_while_pending": 100, "cancel_after_handoff": 10, "monitor:model": 1000, "monitor:drain": 1000, "long_backlog_drains": 60, "finished_with_falsy_exception": 200, "bulk_backlogs_drained": 6, "producer_between_loop_runs": 7, "consumers_with_a_swallowed_cancellation": 4}
 JOBS = {"quick": 4, "thorough": 16}
 
 OPS = ("E1", "E3", "F", "FX", "C", "R", "X", "S")
@@ -404,6 +404,55 @@ def _cases(tier: str, seed: int, shard: int, nshards: int):  # noqa: ANN202
 BULK = {"quick": (2**16 + 5, 100_003), "thorough": (2**16 + 5, 2**17 + 3, 300_007, 1_000_003)}
 
 
+async def run_stale_consumer(R: Recorder, queue_cls: Any, script: list[Any]) -> None:
+    """the consumer is cleanup code of a cancelled task: it caught its CancelledError (never called uncancel) and goes on consuming;
+    script: ["E", n] enqueue | ["R", k] receive k | ["F"] finish - producer and consumer alternate in one driver, receives are served from
+    the buffer or wait for the next producer step"""
+    case = {"stale_consumer": script}
+    q = queue_cls()
+    nxt = itertools.count(1)
+    enq: list[int] = []
+    received: list[Any] = []
+    terminal: list[Any] = []
+    loop = asyncio.get_running_loop()
+
+    async def consumer(total: int) -> None:
+        me = asyncio.current_task()
+        assert me is not None
+        me.cancel()
+        try:
+            await asyncio.sleep(0)
+        except asyncio.CancelledError:
+            pass
+        try:
+            for _ in range(total):
+                received.append(await q.__anext__())
+        except BaseException as exc:  # noqa: BLE001
+            terminal.append(exc)
+
+    total = sum(op[1] for op in script if op[0] == "R")
+    task = loop.create_task(consumer(total + 1))
+    for op in script:
+        if op[0] == "E":
+            xs = [next(nxt) for _ in range(op[1])]
+            q.enqueue(*xs)
+            enq.extend(xs)
+        elif op[0] == "F":
+            q.finish()
+        for _ in range(3):
+            await asyncio.sleep(0)
+    q.finish()
+    await asyncio.gather(task, return_exceptions=True)
+    R.case(case, nontrivial=True)
+    R.count("consumers_with_a_swallowed_cancellation")
+    ok_t = len(terminal) == 1 and type(terminal[0]) is StopAsyncIteration
+    R.monitor("drain", received == enq, where={"mode": "stale-consumer", "kind": "lost" if len(received) < len(enq) else "extra"}, detail=f"script {script}: enqueued {enq}, a consumer that had caught a cancellation earlier received {received}, then {terminal!r}", case=case)
+    R.monitor("reason-identity", ok_t, where={"mode": "stale-consumer", "kind": "wrong-reason"}, detail=f"after the buffer the consumer got {terminal!r} (expected the end of iteration)", case=case)
+
+
+STALE = [[["E", 3], ["R", 3], ["F"]], [["R", 2], ["E", 1], ["E", 1], ["F"]], [["E", 2], ["R", 1], ["E", 3], ["R", 4], ["F"]], [["E", 20], ["F"], ["R", 20]]]
+
+
 async def run_bulk(R: Recorder, queue_cls: Any, n: int, via: str) -> None:
     """a producer far ahead of the consumer: n unique elements buffered before the first receive, then drained"""
     case = {"bulk": n, "via": via}
@@ -509,6 +558,9 @@ def run(R: Recorder, tier: str, seed: int, shard: int, nshards: int) -> None:
             run_between_runs(R, AsyncQueue, script)
 
     async def main(loop: asyncio.AbstractEventLoop) -> None:
+        for j, script in enumerate(STALE):
+            if j % nshards == shard:
+                await run_stale_consumer(R, AsyncQueue, script)
         for k, n in enumerate(BULK[tier]):
             for j, via in enumerate(("constructor", "one-enqueue", "chunks")):
                 if (k * 3 + j) % nshards == shard:
@@ -549,6 +601,12 @@ def replay(R: Recorder, case: dict[str, Any]) -> None:
 
     if "between_runs" in case:
         run_between_runs(R, AsyncQueue, case["between_runs"])
+        return
+    if "stale_consumer" in case:
+        async def stale_main(loop: asyncio.AbstractEventLoop) -> None:
+            await run_stale_consumer(R, AsyncQueue, case["stale_consumer"])
+
+        run_virtual(stale_main, max_iterations=10**6)
         return
     if "bulk" in case:
         async def bulk_main(loop: asyncio.AbstractEventLoop) -> None:
